@@ -372,7 +372,9 @@ class Check(PropertyCheck):
                 bad('meta_shared_with_original', '')
             if real['area'] is not None:
                 a0, a1 = real['area']
-                if abs(a0 - a1) > 1e-9 * max(abs(a0), 1e-300):
+                # relative to the area, plus the rounding of the shoelace terms themselves (of the order of
+                # eps * size^2, which matters for self-intersecting polygons whose signed areas cancel)
+                if abs(a0 - a1) > 1e-9 * abs(a0) + 1e-12 * G.approx_size(d) ** 2:
                     bad('area_changed', f'{a0} -> {a1}')
             tol = self._tol(case)
             back = {k: v for k, v in real['back'].items()}
